@@ -64,7 +64,7 @@ func pickS(q, t string) string {
 
 func smallSizes() []size {
 	var out []size
-	n := chk.Pick(6, 12)
+	n := chk.Pick(10, 12)
 	for w := 1; w <= n; w++ {
 		for h := 1; h <= n; h++ {
 			out = append(out, size{w, h})
@@ -177,8 +177,8 @@ func checkCube(l *mc.Local, kind string) {
 
 func runViews() {
 	small := roots(smallSizes())
-	d1 := chk.Pick(2, 3)
-	rng(fmt.Sprintf("views: %d source kinds x sizes %s, full menu (<= 24 operations per state), all histories of length <= %d", len(kinds), pickS("1..6 x 1..6 + (7,12),(12,7)", "1..12 x 1..12"), d1), len(small),
+	d1 := chk.Pick(3, 3)
+	rng(fmt.Sprintf("views: %d source kinds x sizes %s, full menu (<= 24 operations per state), all histories of length <= %d", len(kinds), pickS("1..10 x 1..10 + (7,12),(12,7)", "1..12 x 1..12"), d1), len(small),
 		func(i int) string { return fmt.Sprint(small[i]) },
 		func(l *mc.Local, i int) { search(l, small[i].kind, small[i].w, small[i].h, d1, true) })
 	large := roots(largeSizes)
@@ -187,7 +187,7 @@ func runViews() {
 		func(i int) string { return fmt.Sprint(large[i]) },
 		func(l *mc.Local, i int) { search(l, large[i].kind, large[i].w, large[i].h, d2, true) })
 	all := roots(append(smallSizes(), largeSizes...))
-	d3 := chk.Pick(4, 6)
+	d3 := chk.Pick(5, 6)
 	rng(fmt.Sprintf("views: %d source kinds x all %d sizes, six-operation sub-menu {crop(1,1,w-2,h-2), crop(0,0,w-1,h), invert, rotate, crop(1,0,w-1,h), crop(0,1,w,h-1)}, all histories of length <= %d", len(kinds), len(all)/len(kinds), d3), len(all),
 		func(i int) string { return fmt.Sprint(all[i]) },
 		func(l *mc.Local, i int) { search(l, all[i].kind, all[i].w, all[i].h, d3, false) })
